@@ -130,6 +130,56 @@ def permits(tagged, fail, block, free, tagfree):
     return None
 
 
+def submit_blocks(tagged, state, held):
+    """C10.6: TransferCoordinator.submit to a FULL stage blocks (here: lets the task occupying the stage run, then goes
+    on) - it neither fails nor overruns - whatever state the transfer is in (a failed / cancelled transfer still has
+    tasks to submit: the final / cleanup tasks)"""
+    from s3transfer.futures import BoundedExecutor, TaskTag, TransferCoordinator
+    from s3transfer.tasks import Task
+    from s3transfer.utils import TaskSemaphore
+    ns.install()
+    S = ns.Sched()
+    tag = TaskTag('t')
+    be = BoundedExecutor(1, 1, {tag: TaskSemaphore(1)}, ns.ModelExecutor)
+    ran = []
+
+    class T(Task):
+        def _main(self, label):
+            ran.append(label)
+    other = TransferCoordinator(transfer_id=1)
+    mine = TransferCoordinator(transfer_id=2)
+    # the stage (or the tag's semaphore) is full: `held` tasks of another transfer are queued and have not started
+    for i in range(held):
+        other.submit(be, T(other, main_kwargs={'label': 'other%d' % i}), tag=tag if tagged else None)
+        if i == 0 and held > 1:
+            return '~'     # (one permit only: a second occupant would itself block - not this obligation)
+    if state == 1:
+        mine.set_status_to_queued()
+    elif state == 2:
+        mine.set_status_to_running()
+    elif state == 3:
+        mine.set_status_to_running()
+        mine.set_exception(F.Injected('x', 0))
+    elif state == 4:
+        mine.set_status_to_running()
+        mine.cancel()
+    try:
+        fut = mine.submit(be, T(mine, main_kwargs={'label': 'mine'}), tag=tag if tagged else None)
+    except ns.Stuck:
+        return '~'
+    except ns.Deadlock as d:
+        return 'c10: submit to a full stage can never go on: ' + str(d)
+    except Exception as e:  # noqa
+        return 'c10: submit to a full stage failed instead of blocking (%s)' % type(e).__name__
+    if held and ran[:1] != ['other0']:
+        return 'c10: submit overran a full stage (returned before the occupying task ran)'
+    while S.runnable():
+        S.runnable()[0].start_next()
+    if not fut.done():
+        return 'c10: submitted task never ran'
+    return None
+
+
 def analyse(c):
     """stage attribution / overlap / occupancy from the event log of a nested-schedule run"""
     cfg = c.cfg
@@ -237,6 +287,12 @@ OBLIGATIONS = [
          bounds='free permits of the stage / tag semaphore symbolic in 0..3; blocking submit at zero permits is '
                 'reported by the real threading.Semaphore blocking - excluded by pruning (see C04 for blocking)',
          encodes=['BoundedExecutor.submit', 'ExecutorFuture.add_done_callback', 'TaskSemaphore'], assumptions=[]),
+    dict(id='C10.6', impl='submit_blocks', params='state: int, held: int', cases=[(False,), (True,)],
+         pre=['0 <= state <= 4', '0 <= held <= 1'], timeout=(60, 300),
+         bounds='one-permit stage (or tag semaphore) empty or full; the submitting transfer not-started / queued / '
+                'running / failed / cancelled (symbolic index)',
+         encodes=['TransferCoordinator.submit', 'BoundedExecutor.submit (blocking)', 'TaskSemaphore.acquire'],
+         assumptions=['model semaphore: a blocked acquire lets queued tasks run (engine NS)']),
 ] + _occ()
 
 from harness.corace import OB_SEMP, sliding_window_preempt  # noqa: E402
